@@ -1,7 +1,7 @@
 """C07 — parsing is total: any input gives a value or an error, never a panic or hang."""
 import re
 from .common import Report, Finding
-from . import panics, grules, grammar as G
+from . import panics, grules, relidx, grammar as G
 from .callgraph import CallGraph
 
 LEVEL = "other"
@@ -12,10 +12,16 @@ EXPLANATION = ("Panic ledger by abstract interpretation of the structured HIR of
                "predicate summaries computed from the callee bodies) are tracked path-sensitively. P1 explicit "
                "panics; P2 every str/String slice must have char-boundary bounds and, for constant bounds, a "
                "dominating length guard; P3 every unwrap/expect must be dominated by a proof of Some/Ok; P4 "
-               "constant vector indices need a length guard; P5 lists recursion cycles and loops. Termination / "
-               "run time and in-bounds safety of relational (non-constant) byte offsets are not decided.")
+               "constant vector indices need a length guard; P5 every recursion cycle is a reviewed structural one; "
+               "P6 loop progress: every path of a `while` body that returns to the condition touches the state the "
+               "condition reads, every `loop` has an exit; G8 sequence loops consume their marker or leave. "
+               "Run time and in-bounds safety of relational (non-constant) byte offsets are not decided.")
 ASSUMPTIONS = ["library functions (str::find, char_indices, split_at) return char boundaries of their receiver",
                "integer-overflow asserts are debug-only and are counted, not judged"]
+
+
+# reviewed: both recurse over a finite owned value (error source chain / serde_json::Value), one level per call
+REVIEWED_RECURSION = {"ParseError::debug_report", "publish::clean_null_fields"}
 
 
 def sccs(cg, nodes):
@@ -65,8 +71,10 @@ def run(F, tier):
     r3 = rep.rule("P3", "every unwrap()/expect() is dominated by a proof that the receiver is Some/Ok "
                         "(is_some / if-let / non-empty text for first char / ASCII + length for nth char / "
                         "ASCII-digit text for parse)", floor=20)
-    r4 = rep.rule("P4", "a constant index into a vector / slice is dominated by a guard implying len > k "
-                        "(non-constant indices are listed as unjudged)", floor=50)
+    r4 = rep.rule("P4", "a constant index into a vector / slice is dominated by a guard implying len > k; a "
+                        "non-constant index I into V is dominated by a guard relating it to V.len() (enclosing "
+                        "`I < V.len()`, earlier `if I >= V.len() { leave }`, `for I in a..V.len()`, `V.len() - c` "
+                        "under a length guard) with no assignment to I and no shrinking of V in between", floor=50)
     r1["functions_analysed"] = nfns
     r1["summaries"] = {k: v for k, v in summ.items() if k.startswith(("pred:", "posfn:")) or v.get("arg0", {}).get("ascii")
                        or v.get("arg0", {}).get("minlen")}
@@ -74,6 +82,7 @@ def run(F, tier):
     impls = F.impls_of("traits::SwiftMessageBody")
     missing = [i["self"] for i in impls if not any(it["name"] == "parse_from_block4" for it in i["items"])]
     unjudged = 0
+    judges = {}
     for s in led:
         rid = s.kind
         rr = rep.rules[rid]
@@ -81,8 +90,19 @@ def run(F, tier):
         if s.verdict == "safe":
             continue
         if s.verdict == "unjudged":
-            unjudged += 1
-            continue
+            ix = s.node.get("i") or {}
+            while isinstance(ix, dict) and ix.get("k") in ("ref", "paren"):
+                ix = ix.get("e")
+            if isinstance(ix, dict) and ix.get("k") == "struct" and "Range" in (ix.get("path") or ""):
+                unjudged += 1        # sub-slice of a vector by a non-constant range: listed, not judged
+                continue
+            j = judges.setdefault(s.fn["path"], relidx.Judge(s.fn))
+            verdict, why = j.judge(s.node)
+            r4["relational"] = r4.get("relational", 0) + 1
+            if verdict == "safe":
+                continue
+            s.why = why
+            rid = "P4"
         b = s.fn
         if rid == "P1" and b["path"] == "traits::SwiftMessageBody::parse_from_block4" and not missing:
             continue
@@ -92,7 +112,7 @@ def run(F, tier):
             "P2": "%s slices text by byte offsets without proof (%s): a multi-byte character straddling the offset, "
                   "or a shorter text, panics" % (b["path"], s.why),
             "P3": "%s unwraps a value that can be None/Err: %s" % (b["path"], s.why),
-            "P4": "%s indexes a vector with a constant that no length guard covers (%s)" % (b["path"], s.why),
+            "P4": "%s indexes a vector without a dominating length guard (%s)" % (b["path"], s.why),
         }[rid]
         rep.add(Finding(rid, b["path"], key_txt, msg, b["file"], s.node.get("ln"), detail={"why": s.why}))
     for t in missing:
@@ -104,10 +124,21 @@ def run(F, tier):
     cg = CallGraph(F)
     nodes = set(p for p in F.mir if not F.mir[p].get("exp"))
     cyc = sccs(cg, nodes)
-    r5 = rep.rule("P5", "recursion cycles and loops are listed; sequence loops are judged by G8 (progress)", floor=0)
+    r5 = rep.rule("P5", "every recursion cycle of the crate is one of the reviewed structural recursions (over an "
+                        "error chain / a JSON value); a new cycle means input-controlled stack depth", floor=2)
     r5["recursion_cycles"] = [[x.rsplit("::", 2)[-2] + "::" + x.rsplit("::", 1)[-1] for x in c][:6] for c in cyc][:20]
+    for c in cyc:
+        r5["instances"] += 1
+        names = sorted(x.rsplit("::", 2)[-2] + "::" + x.rsplit("::", 1)[-1] for x in c)
+        if not all(n in REVIEWED_RECURSION for n in names):
+            b0 = F.body_by_path.get(sorted(c)[0]) or {}
+            rep.add(Finding("P5", sorted(c)[0], "recursion:%s" % ",".join(names)[:120],
+                            "recursion cycle %s is not among the reviewed structural recursions: its depth may be "
+                            "controlled by the input (stack exhaustion)" % names[:4], b0.get("file"), b0.get("line")))
     tms, ft = grules.models(F)
     grules.g8(rep, tms)
+    from . import loops
+    loops.p6(rep, F)
     for s in led[:3]:
         rep.sample({"site": s.text, "fn": s.fn["path"], "verdict": s.verdict, "why": s.why})
     return rep
